@@ -732,4 +732,18 @@ theorem stDou_run (s : State) (ops : List Op) (h : StDou s) : StDou (run s ops) 
 
 theorem stDou_init (cfg : Cfg) : StDou { cfg := cfg } := ⟨fun m hm => (by cases hm), fun _ => rfl⟩
 
+/-! ### the configuration never changes -/
+
+theorem exec_cfg (s : State) (m : Mem) (op : Op) : (exec s m op).1.cfg = s.cfg := by
+  cases op <;> simp only [exec] <;> (repeat' split) <;> rfl
+
+theorem step_cfg (s : State) (op : Op) : (step s op).1.cfg = s.cfg := by
+  unfold step
+  cases op <;> simp only [] <;> (repeat' split) <;> first | rfl | (simp only [rollbackTx, commitTx, exec_cfg])
+
+theorem run_cfg (s : State) (ops : List Op) : (run s ops).cfg = s.cfg := by
+  induction ops generalizing s with
+  | nil => rfl
+  | cons op ops ih => simp only [run]; rw [ih, step_cfg]
+
 end AddrLock
